@@ -1594,6 +1594,13 @@ class LogicalOperator(BinaryOperator, ABC):
         return self.__class__.__name__
 
     @property
+    def _can_answer_from_cache_(self) -> bool:
+        """
+        Whether outputs stored by a previous evaluation may be used instead of evaluating the operands.
+        """
+        return is_caching_enabled()
+
+    @property
     def _plot_color_(self) -> ColorLegend:
         return ColorLegend("LogicalOperator", '#2ca02c')
 
@@ -1692,7 +1699,7 @@ class Union(OR):
         sources = sources or {}
         self._yield_when_false_ = yield_when_false
 
-        if is_caching_enabled() and self._cache_.check(sources):
+        if self._can_answer_from_cache_ and self._cache_.check(sources):
             yield from self.yield_final_output_from_cache(sources)
             return
 
@@ -1763,7 +1770,7 @@ class ElseIf(OR):
                 any_left = True
                 left_value.update(sources)
                 if self.left._is_false_:
-                    if is_caching_enabled() and self.right_cache.check(left_value):
+                    if self._can_answer_from_cache_ and self.right_cache.check(left_value):
                         yield from self.yield_final_output_from_cache(left_value, self.right_cache)
                         continue
                     right_prev = self.right._eval_parent_
